@@ -115,6 +115,10 @@ class Scenario:
         self.cfg = dict(maxconn=r.choice([2, 3, 4, 10]), maxout=r.choice([1, 3, 10, 200]),
                         segsize=r.choice([1024, 1024, 4096]), segcount=r.choice([1, 2, 3, 10]),
                         strategy=r.choice(["rr", "rr", "random", "sticky"]), dbg=1)
+        if self.kind == "window":
+            # backlogs far beyond the window and the outgoing buffer, but within log retention, so
+            # that completeness after the last ack / Ready can be judged
+            self.cfg.update(segsize=4096, segcount=10, maxout=r.choice([10, 200, 200]))
         init = [hx(f) for f in (r.choice([[], [], ["a/b"], ["#", "a/+"]]))]
         c = self.cfg
         self.do("NEW %d %d %d %d %s %d %s" % (c["maxconn"], c["maxout"], c["segsize"], c["segcount"], c["strategy"],
@@ -172,6 +176,9 @@ class Scenario:
             topic = r.choice([b"\xff\xfe", b"a/+", b"#", b"$SYS/x", b"", "é".encode(), b"a//b"])
         self.seq += 1
         payload = b"" if r.chance(1, 12) else ("m%d" % self.seq).encode()
+        if payload and r.chance(1, 8):
+            # a big message now and then: segments roll over and old ones are evicted
+            payload += b"." * r.choice([200, 400, 1100])
         qos = r.below(3)
         retain = 1 if r.chance(*getattr(self, "p_retain", (1, 4))) else 0
         pkid = 0
